@@ -557,7 +557,7 @@ static LinkedList *bufr_repl_descriptors
 /*
  * add this flag for processing of Data Present Bitmap of Table C Operator 2 22 000
  */
-   if (nbdesc == 1)
+   if ((nbdesc == 1) && (first != NULL))
       {
       int  f2, x2, y2;
 
@@ -578,8 +578,11 @@ static LinkedList *bufr_repl_descriptors
          {
          if (node == NULL)
             {
-            bufr_abort( _("Error in bufr_repl_descriptors(): node is null\n") );
-            break;
+            /* replication reaches past the end of the list: refuse, the caller reports the error */
+            bufr_print_debug( _("Error in bufr_repl_descriptors(): replication runs past the end of the sequence\n") );
+            bufr_free_descriptorList( lst );
+            if (errflg) *errflg = 1;
+            return NULL;
             }
          cb = (BufrDescriptor *)node->data;
          if (cb->encoding.nbits == -1)
@@ -905,7 +908,7 @@ int bufr_check_sequence
       bufr_print_debug( errmsg );
       return -1;
       }
-   if (repl_active > 1)
+   if (repl_active != 0)
       {
       sprintf( errmsg, _("Error: bad replication code count in dataset definition\n") );
       bufr_print_debug( errmsg );
@@ -1016,11 +1019,16 @@ static int decrease_repeat_counters( int descriptor, LinkedList *stack, int *ski
          }
       else
          *repl -= 1;
-      if (*repl < 0) rtrn = -1;
+      if (*repl < 0) 
+         rtrn = -1;
+      else if ((rtrn >= 0) && (*repl > rtrn)) 
+         rtrn = *repl;
       node = lst_nextnode(node);
       }
-
-   rtrn = (repl) ? *repl : 0;
+/*
+ * rtrn is -1 if any replication ran past an enclosing one, 
+ * otherwise the largest number of descriptors still expected
+ */
 /*
  * remove all last counters if zero
 
